@@ -141,6 +141,8 @@ func Expect(p *ref.Plan, o ExpectOpts) (*Expectation, error) {
 // CompareOpts selects what CompareContent looks at.
 type CompareOpts struct {
 	Header bool
+	// Unknown: also compare the unknown-field and unknown-message lists.
+	Unknown bool
 	// Skip reports struct fields to leave out (component destinations etc.).
 	Skip func(slot string, g uint16, idx int, sindex int) bool
 }
@@ -172,6 +174,14 @@ func CompareContent(exp, got *Content, o CompareOpts) []Diff {
 			return nil
 		}
 		return func(si int) bool { return o.Skip(slot, g, idx, si) }
+	}
+	if o.Unknown {
+		if fmt.Sprint(exp.UnknownFields) != fmt.Sprint(got.UnknownFields) {
+			st("unknown fields", fmt.Sprint(exp.UnknownFields), fmt.Sprint(got.UnknownFields))
+		}
+		if fmt.Sprint(exp.UnknownMessages) != fmt.Sprint(got.UnknownMessages) {
+			st("unknown messages", fmt.Sprint(exp.UnknownMessages), fmt.Sprint(got.UnknownMessages))
+		}
 	}
 	out = append(out, CompareMsgs("fileid", "FileId", 0, 0, exp.FileId, got.FileId, skipFor("FileId", 0, 0))...)
 	if len(exp.Slots) != len(got.Slots) {
